@@ -6,7 +6,7 @@ use proptest::prelude::*;
 use serde::{Deserialize, Serialize};
 use serde_json::json;
 
-use crate::engine::{catch, chunk, Failure, Prop, Stats, Tier};
+use crate::engine::{catch, chunk, guarded, Failure, Prop, Stats, Tier};
 use crate::oracle::hijri;
 
 pub struct C17;
@@ -174,7 +174,7 @@ impl Prop for C17 {
         let mut d = first() + chrono::Duration::days(lo as i64);
         for _ in lo..hi {
             let c = Case { date: d };
-            self.check(&c, st).map_err(|f| (c.clone(), f))?;
+            guarded(&c, || self.check(&c, st))?;
             st.nontrivial_enum(1);
             if let Some(n) = d.succ_opt() {
                 d = n;
